@@ -238,10 +238,11 @@ func zzPoolHist() {
 // zz:also C19
 func ZZH_C18_pipeline() {
 	zz.ConcreteClock(1000) // arrival order = submission order; ageing is the subject of ZZH_C19_evict
-	batchSize := uint64(1 + zz.Choice("batchSize", 2))
+	batchSize := uint64(1 + zz.Choice("batchSize", 3))
 	m := &zzPoolModel{committed: append([]uint64{}, zzBase...), nextBatch: append([]uint64{}, zzBase...), lastHeight: 1}
 	mp := zzNewPool(batchSize, m)
 	nextHash := 0
+	tsOrder := zz.Choice("timestampOrder", 3)
 	submit := func() {
 		if nextHash >= len(zzHashes) {
 			return
@@ -249,7 +250,16 @@ func ZZH_C18_pipeline() {
 		n := zzBase[0] + uint64(nextHash)
 		h := zzHashes[nextHash]
 		nextHash++
-		tx := &pb.BxhTransaction{From: zzAccts[0], To: zzAccts[1], Nonce: n, Timestamp: 1, TransactionHash: types.NewHashByStr(h)}
+		// the transactions' own timestamps (the priority order of the pool) may run with, against or
+		// independently of the nonce order: a client may sign nonce 2 before nonce 0
+		ts := int64(1)
+		switch tsOrder {
+		case 1:
+			ts = int64(1 + nextHash)
+		case 2:
+			ts = int64(10 - nextHash)
+		}
+		tx := &pb.BxhTransaction{From: zzAccts[0], To: zzAccts[1], Nonce: n, Timestamp: ts, TransactionHash: types.NewHashByStr(h)}
 		m.subs = append(m.subs, &zzSubmitted{acct: 0, nonce: n, hash: h, tx: tx, admitted: true})
 		zzCheckBatch(m, mp.ProcessTransactions([]pb.Transaction{tx}, false, true), batchSize)
 	}
@@ -274,6 +284,9 @@ func ZZH_C18_pipeline() {
 		}
 		pn := mp.GetPendingNonceByAccount(zzAccts[0].String())
 		zz.Assert("C19.pipeline.pending-nonce", pn == zzBase[0]+uint64(nextHash))
+		// every submitted transaction is ready (consecutive from the committed nonce): the pool reports
+		// pending work exactly while one of them has not been handed to consensus yet
+		zz.Assert("C19.pipeline.reports-pending-iff-ready-unbatched", mp.HasPendingRequest() == (m.nextBatch[0] < zzBase[0]+uint64(nextHash)))
 	}
 	for round := 0; round < 5; round++ {
 		zzCheckBatch(m, mp.GenerateBlock(), batchSize)
